@@ -32,7 +32,7 @@ def default_constructible():
     return out
 
 
-def class_vs_functional(rep, spec: Spec, cfg: dict, bs):
+def class_vs_functional(rep, spec: Spec, cfg: dict, bs, tol=None):
     """the property's oracle on one stream of batches: the real class fed `bs` vs the real functional on the concatenation.
     "skip" when the case is outside the comparison, None when the property holds, else (signature, what, replay dict).
     Used by the sweep and by replay()."""
@@ -53,12 +53,18 @@ def class_vs_functional(rep, spec: Spec, cfg: dict, bs):
             m = torch.isfinite(b.reshape(-1).to(torch.float64))
             masked_c.append(a.reshape(-1)[m]); masked_f.append(b.reshape(-1)[m])
         cls_out, fn_out = ("ok", masked_c), ("ok", masked_f)
-    if not same_obs(cls_out, fn_out, spec.tol, shape=False):
+    if not same_obs(cls_out, fn_out, spec.tol if tol is None else tol, shape=False):
         return (f"C03|{spec.name}{finding_class(spec, cfg)}|class-differs-from-functional",
                 f"{spec.name}{public_cfg(cfg)}: class gives {obs_json(cls_out)}, functional on the concatenation gives {obs_json(fn_out)}",
                 {"class": spec.name, "cfg": public_cfg(cfg), "batches": [b.describe() for b in bs],
                  "class_result": obs_json(cls_out), "functional_result": obs_json(fn_out)})
     return None
+
+
+# classes whose functional twin is float64-accurate on float64 data and whose states follow the dtype of the data: on float64 streams the
+# class must be float64-accurate too (an accumulator that silently stays float32 loses 8 digits)
+# (click_through_rate / weighted_calibration compute their statistics in float32 by design — recorded under C19 — and stay at spec.tol)
+F64_TOL = {"PeakSignalNoiseRatio": 1e-11, "Mean": 1e-11, "Sum": 1e-11}
 
 
 def sweep(rep: Report, rng: Rng, reps: int, deadline: float):
@@ -94,8 +100,10 @@ def sweep(rep: Report, rng: Rng, reps: int, deadline: float):
                 rep.count(f"class:{spec.name}")
                 rep.case(nontrivial_key=(spec.name, repr(public_cfg(cfg)), repr([b.describe() for b in bs])) if len(bs) >= 2 else None,
                          sample={"class": spec.name, "cfg": public_cfg(cfg), "batches": [b.describe() for b in bs]} if rep.evaluations % 307 == 0 else None)
-                v = class_vs_functional(rep, spec, cfg, bs)
+                v = class_vs_functional(rep, spec, cfg, bs, tol=F64_TOL.get(spec.name) if mode.startswith("f64") else None)
                 if v not in (None, "skip"):
+                    if mode.startswith("f64") and spec.name in F64_TOL:
+                        v = (v[0].replace("class-differs-from-functional", "float64-data|class-differs-from-functional"), v[1], {**v[2], "tolerance": F64_TOL[spec.name]})
                     rep.violation(*v)
 
 
